@@ -121,6 +121,47 @@ func H02_split() {
 	vsymAssert(bufA.Len() == 0, "once the escape timeout has expired no byte remains buffered")
 }
 
+// H02_sgrlong: SGR mouse reports with fields of 1..4 symbolic digits (up to 19 bytes),
+// followed by a key press: split at every point they decode to the same events as in one
+// read, and nothing is delivered before the report is complete.
+func H02_sgrlong() {
+	t1, t2 := hNewTScreen("xterm-256color"), hNewTScreen("xterm-256color")
+	t1.cells.w, t1.cells.h, t2.cells.w, t2.cells.h = 80, 24, 80, 24
+	s := []byte("\x1b[<")
+	for i, tag := range []string{"b", "x", "y"} {
+		f, _ := h12Field(tag, false)
+		s = append(s, f...)
+		if i < 2 {
+			s = append(s, ';')
+		}
+	}
+	if vsymChoice("final", 2) == 0 {
+		s = append(s, 'M')
+	} else {
+		s = append(s, 'm')
+	}
+	rep := len(s)
+	s = append(s, 'q')
+	bufA := &bytes.Buffer{}
+	bufA.Write(s)
+	evA := t1.collectEventsFromInput(bufA, false)
+	vsymAssert(len(evA) == 2 && bufA.Len() == 0, "a complete SGR report and the following key decode to two events")
+	bd := t1.buttondn
+	for k := 1; k < len(s); k++ {
+		t2.buttondn, t2.escaped = false, false
+		bufB := &bytes.Buffer{}
+		bufB.Write(s[:k])
+		evB := t2.collectEventsFromInput(bufB, false)
+		if k < rep {
+			vsymAssert(len(evB) == 0, "no event is delivered for an incomplete SGR mouse report before the timeout")
+		}
+		bufB.Write(s[k:])
+		evB = append(evB, t2.collectEventsFromInput(bufB, false)...)
+		vsymAssert(hEvsEq(evA, evB), "an SGR mouse report split across two reads gives the same events as in one read")
+		vsymAssert(bufB.Len() == 0 && t2.buttondn == bd, "a split SGR mouse report leaves the same decoder state")
+	}
+}
+
 // ---- per-parser differential checks against reference recognisers (refinput)
 
 const (
